@@ -287,3 +287,84 @@ func Shared(a, b any) []Ref {
 	}
 	return out
 }
+
+// Leaf is one alterable scalar location inside a value.
+type Leaf struct {
+	Path   string
+	Mutate func(bit int)
+}
+
+// Leaves enumerates every settable scalar reachable from the pointer p: unsigned / signed integers,
+// booleans, byte arrays and byte slices (one leaf each, a bit of them is flipped), strings.
+func Leaves(p any) []Leaf {
+	var out []Leaf
+	var rec func(val reflect.Value, path string, depth int)
+	rec = func(val reflect.Value, path string, depth int) {
+		if depth > 40 || !val.IsValid() {
+			return
+		}
+		switch val.Kind() {
+		case reflect.Interface, reflect.Pointer:
+			if !val.IsNil() {
+				rec(val.Elem(), path, depth+1)
+			}
+		case reflect.Struct:
+			if val.Type() == reflect.TypeOf(time.Time{}) || val.Type().String() == "big.Int" {
+				return
+			}
+			for i := 0; i < val.NumField(); i++ {
+				if val.Type().Field(i).IsExported() {
+					rec(val.Field(i), path+"."+val.Type().Field(i).Name, depth+1)
+				}
+			}
+		case reflect.Array, reflect.Slice:
+			if val.Type().Elem().Kind() == reflect.Uint8 {
+				if val.Len() == 0 || !val.Index(0).CanSet() {
+					return
+				}
+				v := val
+				out = append(out, Leaf{path, func(bit int) {
+					e := v.Index((bit / 8) % v.Len())
+					e.SetUint(e.Uint() ^ (1 << uint(bit%8)))
+				}})
+				return
+			}
+			for i := 0; i < val.Len(); i++ {
+				rec(val.Index(i), fmt.Sprintf("%s[%d]", path, i), depth+1)
+			}
+		case reflect.Uint8, reflect.Uint16, reflect.Uint32, reflect.Uint64, reflect.Uint:
+			if val.CanSet() {
+				v := val
+				out = append(out, Leaf{path, func(bit int) {
+					if bit%2 == 0 {
+						v.SetUint(v.Uint() + 1)
+					} else {
+						v.SetUint(v.Uint() ^ (1 << uint(bit%16)))
+					}
+				}})
+			}
+		case reflect.Int8, reflect.Int16, reflect.Int32, reflect.Int64, reflect.Int:
+			if val.CanSet() {
+				v := val
+				out = append(out, Leaf{path, func(int) { v.SetInt(v.Int() + 1) }})
+			}
+		case reflect.Bool:
+			if val.CanSet() {
+				v := val
+				out = append(out, Leaf{path, func(int) { v.SetBool(!v.Bool()) }})
+			}
+		}
+	}
+	rec(reflect.ValueOf(p), "", 0)
+	return out
+}
+
+// PtrTo returns a pointer to a fresh copy of v (so that its fields are addressable for Leaves).
+func PtrTo(v any) any {
+	p := reflect.New(reflect.TypeOf(v))
+	p.Elem().Set(reflect.ValueOf(v))
+	return p.Interface()
+}
+
+// Deref returns the value a pointer made by PtrTo points to.
+func Deref(p any) any { return reflect.ValueOf(p).Elem().Interface() }
